@@ -197,3 +197,34 @@ func privateMap(m *ssa.MakeMap) bool {
 	}
 	return true
 }
+
+// condPrivateCell: a local variable cell whose address is used only for loads and stores here and
+// captured by closures (which may write it). Until one of the capturing closures has been created
+// on the path taken, no callee can reach the cell. Returns the capturing instructions; ok=false when
+// the address escapes in any other way, or when the cell or a capture sits inside a loop (where the
+// per-iteration reachability constants do not tell whether an earlier iteration captured it).
+func condPrivateCell(a *ssa.Alloc, inLoop func(*ssa.BasicBlock) bool) ([]ssa.Instruction, bool) {
+	refs := a.Referrers()
+	if refs == nil || inLoop(a.Block()) {
+		return nil, false
+	}
+	var caps []ssa.Instruction
+	for _, r := range *refs {
+		switch x := r.(type) {
+		case *ssa.UnOp:
+		case *ssa.DebugRef:
+		case *ssa.Store:
+			if x.Addr != a {
+				return nil, false
+			}
+		case *ssa.MakeClosure:
+			if inLoop(x.Block()) {
+				return nil, false
+			}
+			caps = append(caps, x)
+		default:
+			return nil, false
+		}
+	}
+	return caps, len(caps) > 0
+}
